@@ -14,6 +14,17 @@ CHECKS = {
             'trusts vlib/aeq.py as the definition of abstract equality; modules the library cannot compile and '
             'values the library itself rejects are counted, not judged',
             'property-based testing (Hypothesis), round-trip oracle'),
+    'C15': ('hypothesis', 'exploration',
+            'generated modules x values, ber/der: decode_with_length(m+tail) == (decode(m), len(m)); '
+            'decode_length on every prefix of the header region == len(m) iff the prefix holds the complete '
+            'identifier and length octets (independent header reader), else None',
+            'trusts the 15-line independent X.690 header reader in vlib/checks/c15.py',
+            'property-based testing (Hypothesis), exhaustive prefix enumeration per case, independent header model'),
+    'C16': ('hypothesis', 'exploration',
+            'generated modules x values x 5 binary codecs x every strict byte-prefix of the encoding: decode must '
+            'raise asn1tools.DecodeError (not return a value, not raise a foreign exception)',
+            'assumes the encoders emit no byte their own decoder does not need (argued in DESIGN.md C16)',
+            'property-based testing (Hypothesis), exhaustive prefix enumeration per case'),
 }
 
 ALL = ['C%02d' % i for i in range(1, 21)]
